@@ -5,6 +5,7 @@ import (
 	"go/ast"
 	"go/constant"
 	"go/token"
+	"pigeonverif/internal/variants"
 	"sort"
 	"strings"
 
@@ -25,8 +26,10 @@ func C14(c *Ctx) {
 
 	abs := c.allAbs()
 	r.Min("semantic variants analysed", 16, len(abs))
+	r.Rule("C14-g", "handlers are in force dynamically, the memo table is keyed by (node, offset): a path of parseExprWrap / parseRuleMemoize / parseRuleRecursiveLeader that answers from the table without evaluating consults the handler stack - otherwise a result remembered when no handler for the label was in force is replayed inside the guarded expression of a recovery operator, and the throw does not happen there")
 	for _, a := range abs {
 		vn := a.V.Name
+		c14MemoHits(c, a.V)
 		// ---- a
 		if res := a.Res["parseRecoveryExpr"]; res != nil {
 			param := res.Fn.Type.Params.List[0].Names[0].Name
@@ -391,4 +394,44 @@ func c14Builder(c *Ctx) {
 	// every recovery / throw node of the grammar becomes a runtime node, unconditionally (node type, all keys on every
 	// path, no emission guard other than the nil test): a handler that is not emitted is never in force
 	builderPairingN(c, "C14-c", "writeRecoveryExpr", "writeThrowExpr")
+}
+
+// c14MemoHits (C14-g): handlers are in force dynamically, so what an expression yields depends on the handler stack
+// wherever a throw can be reached from it. The memo table is keyed by (node, offset) alone: a result remembered when
+// no handler (or another handler) was in force is replayed inside the guarded expression of a recovery operator, and
+// the throw never happens there. The rule reads the paths of the three routines that answer from the table: a path
+// that returns a remembered result without evaluating must consult the handler stack (a fact or call that names it).
+func c14MemoHits(c *Ctx, v *variants.Variant) {
+	r := c.R
+	for _, fn := range []string{"parseExprWrap", "parseRuleMemoize", "parseRuleRecursiveLeader"} {
+		fd := v.Func("parser", fn)
+		if fd == nil {
+			continue // not part of this variant
+		}
+		nHit, nBlind := 0, 0
+		for _, p := range c.vnorm(v).without("read", "restore", "failAt", "sliceFrom", "in", "out", "addErr", "addErrAt", "getMemoized", "setMemoized", "parseRule", "parseExpr", "cloneState", "restoreState", "printIndent").normPaths(fd) {
+			iGet := p.evIndex("call", 0, func(s string) bool { return strings.Contains(s, ".getMemoized(") })
+			if iGet < 0 || lastReturn(p) == "" {
+				continue
+			}
+			if p.evIndex("call", iGet, func(s string) bool { return strings.Contains(s, ".parseRule(") || strings.Contains(s, ".parseExpr(") }) >= 0 {
+				continue
+			}
+			nHit++
+			aware := false
+			for _, e := range p {
+				if strings.Contains(e.Text, "recoveryStack") || strings.Contains(e.Text, "Recovery") {
+					aware = true
+				}
+			}
+			if !aware {
+				nBlind++
+			}
+		}
+		if nHit == 0 {
+			continue
+		}
+		r.Check(nBlind == 0, "C14-g", "T."+fn+":memo-hit-respects-handlers", v.Name, v.Where(fd.Pos()), fmt.Sprintf("%d paths answer from the table, each consulting the handler stack", nHit),
+			fmt.Sprintf("%d of %d paths that answer from the memo table never look at the handler stack: the table is keyed by (node, offset) only, so a result remembered while no handler for the label was in force is replayed inside the guarded expression of a recovery operator and the throw does not happen there", nBlind, nHit))
+	}
 }
